@@ -328,6 +328,9 @@ static int parse_sequel(token_t *tok, int outer)
                     _cffi_opcode_t oarg;
 
                     if (tok->kind == TOK_DOTDOTDOT) {
+                        if (arg_next == base_index + 1)
+                            return parse_error(tok, "a function with only "
+                                "'(...)' as argument is not correct C");
                         flags = 1;   /* ellipsis */
                         next_token(tok);
                         break;
